@@ -327,3 +327,35 @@ pub fn product_shapes(m: &BigUint, p: &mut Prng) -> Vec<(String, BigUint, BigUin
     }
     out
 }
+
+/// Scalars made of runs of one bits: 2^a - 2^b (a run from bit b to a-1, crossing word / window boundaries when
+/// a or b sit next to a multiple of 64), repeated byte patterns (aa.., 55.., 88.., f0.., ff00ff00..), 2^k +- 1.
+/// Window / NAF / comb recodings carry through such digit strings.
+pub fn run_scalar(p: &mut Prng, order: &BigUint) -> BigUint {
+    let v = match p.below(4) {
+        0 => {
+            let a = 2 + p.below(255);
+            let b = p.below(a);
+            (BigUint::one() << a) - (BigUint::one() << b)
+        }
+        1 => {
+            // a run that straddles a limb boundary
+            let w = 64 * (1 + p.below(3));
+            let (lo, hi) = (w - 1 - p.below(12), w + 1 + p.below(12));
+            (BigUint::one() << hi) - (BigUint::one() << lo) + BigUint::from(p.below(16))
+        }
+        2 => {
+            let pat = [0xaau8, 0x55, 0x88, 0xf0, 0x0f, 0x7f, 0xfe, 0x11][p.below(8) as usize];
+            let alt = if p.below(2) == 0 { pat } else { !pat };
+            let per = 1 + p.below(4) as usize;
+            let bytes: Vec<u8> = (0..32).map(|i| if (i / per) % 2 == 0 { pat } else { alt }).collect();
+            BigUint::from_bytes_be(&bytes)
+        }
+        _ => {
+            let k = 1 + p.below(255);
+            if p.below(2) == 0 { (BigUint::one() << k) + 1u32 } else { (BigUint::one() << k) - 1u32 }
+        }
+    };
+    let v = v % order;
+    if v.is_zero() { BigUint::from(3u32) } else { v }
+}
